@@ -236,9 +236,13 @@ func (l *fakeErrorLogger) Log(err error) {
 
 type tidKey struct{}
 
+// ffKey: the pool file the upload reads (for the mutation counter at Put entry).
+type ffKey struct{}
+
 type putCall struct {
 	t    int
 	d    digest.Digest
+	mut  int // mutation counter of the pool file when Put was entered (-1: unknown)
 	done chan bool
 }
 
@@ -271,7 +275,10 @@ func (c *fakeCAS) Put(ctx context.Context, d digest.Digest, b buffer.Buffer) err
 		b.Discard()
 		return status.FromContextError(ctx.Err()).Err()
 	}
-	call := &putCall{t: t, d: d, done: make(chan bool, 1)}
+	call := &putCall{t: t, d: d, mut: -1, done: make(chan bool, 1)}
+	if ff, ok := ctx.Value(ffKey{}).(*fakeFile); ok {
+		_, _, _, call.mut = ff.snapshot()
+	}
 	c.mu.Lock()
 	if _, dup := c.pending[t]; dup {
 		c.bad = fmt.Sprintf("two concurrent Put calls of upload %d", t)
